@@ -50,6 +50,8 @@ REQUIRED_THEOREMS = [
     "C10_userDict_siteUs", "C10_userDict_siteUs_fast", "C10_nll_born_rbm_dict", "C10_nll_born_rbm_mixed_dict",
     "C10_nll_born_rbm_userDict", "C10_nll_born_rbm_mixed_userDict", "C10_kl_nonneg_rbm_userDict", "C10_kl_nonneg_mixed_rbm_userDict",
     "C10_kl_formula_dense", "C10_kl_formula_dense_mixed", "C10_kl_self_zero_mixed_rbm", "C10_kl_self_zero_rbm_pos",
+    # extension round 2: the deprecated_kwarg alias layer in front of fidelity / KL (QV.CallForm.renameKw / aliasCall / metricBind)
+    "C10_alias_rename_spec", "C10_alias_same_value", "C10_alias_forms_agree", "C10_alias_positional_shadow",
 ]
 EXTRA_TRUSTED = [
     "np.linalg.eigvals is external to the model (its result is an argument of fidelityMixed); the harness checks every "
@@ -69,7 +71,7 @@ THEOREMS = {
     "nll": "C10_nll_formula, C10_nll_formula_born, C10_nll_born_rbm_userDict",
     "kind": "C10_kind",
 }
-RULE = ("case = (op in {fidelity, KL, NLL}, state kind in {pos, cplx, dens}, n<=3 (4 thorough), h, a, parameters = scale*N(0,1) with all "
+RULE = ("[extension round 2: op alias = fidelity / KL through ~30 call forms mixing positional, target=, deprecated target_psi= / target_rho= and ignored keywords, against QV.CallForm.metricBind] case = (op in {fidelity, KL, NLL}, state kind in {pos, cplx, dens}, n<=3 (4 thorough), h, a, parameters = scale*N(0,1) with all "
         "biases non-zero, target class in {random complex normalised, own state, e^{i alpha} x own/random, real, basis state, GHZ, W, product state "
         "(Z/X/Y eigenstates per site), random/pure/low-rank/basis-state/GHZ/own density matrix}, bases in {None, list over {X,Y,Z}^n, dict target vs "
         "single target}, CALL FORM in {positional, target=, deprecated target_psi=/target_rho=, extra ignored kwargs, space= (keyword / third positional) "
@@ -578,6 +580,125 @@ def rejected_forms(ctx, st, s, t):
         out = call(f)
         ctx.count(f"rejected-form:{name} -> {out[1] if out[0] == 'err' else 'value'}")
 
+# ---------------------------------------------------------------- the deprecated_kwarg alias layer (extension round 2)
+def decorated_functions():
+    """every function of the package wrapped by `deprecated_kwarg` (found by introspection: the wrapper's closure holds the decorator
+    instance) -> {qualified name: [[alias, true_name]... in decorator order]}"""
+    import importlib, pkgutil, sys
+    import qucumber
+    import qucumber.utils as qu
+    for m in pkgutil.walk_packages(qucumber.__path__, "qucumber."):
+        try:
+            importlib.import_module(m.name)
+        except Exception:  # noqa: BLE001  (plotting back ends etc.)
+            pass
+    found = {}
+    for mname, mod in list(sys.modules.items()):
+        if not mname.startswith("qucumber") or mod is None:
+            continue
+        for obj in list(vars(mod).values()):
+            if callable(obj) and getattr(obj, "__closure__", None) and hasattr(obj, "__wrapped__"):
+                for c in obj.__closure__:
+                    try:
+                        d = c.cell_contents
+                    except ValueError:
+                        continue
+                    if isinstance(d, qu.deprecated_kwarg):
+                        found[f"{obj.__module__}.{obj.__name__}"] = [[a, t] for a, t in d.aliases.items()]
+    return found
+
+
+ALIAS_REFS = {"state": 0, "T0": 1, "T1": 2, "space": 3, "bases": 4, "junk": 5}
+
+
+def alias_forms(rng, is_kl, with_bases, aliases):
+    """call forms (name, pos, kw) over the tags of ALIAS_REFS: every deprecated name alone / with other keywords / with the new name (both
+    orders) / with the other deprecated name / positionally shadowed; the canonical forms; too few / too many arguments; random mixes"""
+    F = []
+    extra = [["space", "space"]] + ([["bases", "bases"]] if is_kl and with_bases else [])
+    for a in aliases:
+        F.append((f"{a} alone", ["state"], [[a, "T0"]]))
+        F.append((f"{a} + other keywords", ["state"], extra[:1] + [[a, "T1"]] + extra[1:]))
+        F.append((f"{a} + nn_state by keyword", [], [[a, "T1"], ["nn_state", "state"]]))
+        F.append((f"{a} + ignored extra keyword", ["state"], [["foo", "junk"], [a, "T0"]]))
+        F.append((f"{a} after target=", ["state"], [["target", "T0"], [a, "T1"]]))
+        F.append((f"{a} before target=", ["state"], [[a, "T1"], ["target", "T0"]]))
+        F.append((f"{a} shadowed by positional target", ["state", "T0"], [[a, "T1"]]))
+        F.append((f"{a} shadowed by positional target, space positional", ["state", "T0", "space"], [[a, "T0"]]))
+        F.append((f"{a} without nn_state", [], [[a, "T0"]]))
+        for b in aliases:
+            if b != a:
+                F.append((f"{a} with {b}", ["state"], [[a, "T0"], [b, "T1"]]))
+    F.append(("canonical positional", ["state", "T1"], []))
+    F.append(("canonical target=", ["state"], [["target", "T1"]] + extra))
+    F.append(("all positional", ["state", "T0", "space"] + (["bases"] if is_kl and with_bases else []), []))
+    F.append(("no target", ["state"], extra))
+    F.append(("too many positional", ["state", "T0", "space", "space", "junk"] if not is_kl else ["state", "T0", "space", "space", "junk", "junk"], []))
+    F.append(("space twice", ["state", "T0", "space"], [["space", "space"]]))
+    names = ["target"] + list(aliases) + ["space", "foo"] + (["bases"] if is_kl and with_bases else [])
+    for _ in range(4):
+        npos = rng.choice([0, 1, 1, 1, 2, 3])
+        pos = ["state", rng.choice(["T0", "T1"]), "space"][:npos]
+        kw = []
+        for nm in rng.sample(names, rng.randrange(0, 4)):
+            kw.append([nm, {"space": "space", "foo": "junk", "bases": "bases"}.get(nm) or rng.choice(["T0", "T1"])])
+        if npos == 0 and rng.random() < 0.7:
+            kw.append(["nn_state", "state"])
+        F.append(("random mix", pos, kw))
+    return F
+
+
+def alias_case(ctx, case, st=None, A=None):
+    """`fidelity` / `KL` through every call form of `case["forms"]`: accepted-or-refused and the value against the model's binding
+    (QV.CallForm.metricBind = deprecated_kwarg.rename, then Python's binding): the value of an accepted form must be the value of the
+    canonical call `fn(nn_state, target, space=, bases=)` on the arguments the model binds (C10_alias_same_value)."""
+    import warnings
+    s = case["state"]
+    n = s["n"]
+    st = st if st is not None else make_state(s)
+    is_kl = case["fn"] == "KL"
+    fn = ts.KL if is_kl else ts.fidelity
+    vals = {"state": st, "T0": cvec_t(cfrom(case["targets"][0])), "T1": cvec_t(cfrom(case["targets"][1])), "space": own_space(n),
+            "bases": case.get("bases"), "junk": 7}
+    ctx.case(case, nontrivial=nontrivial_state(s), sample={"op": "alias", "fn": case["fn"], "kind": s["kind"], "n": n, "forms": len(case["forms"])})
+    ctx.count("op=alias"); ctx.count(f"alias.fn={case['fn']}"); ctx.count(f"alias.kind={s['kind']}")
+    if case.get("introspect"):
+        found = decorated_functions()
+        ctx.count(f"alias.decorated functions found by introspection: {sorted(found)}")
+        if ctx.driver is not None:
+            m = ctx.driver.call("c10.alias_call", kl=False, pos=[], kw=[])
+            want = {"qucumber.utils.training_statistics.fidelity": m["aliases"], "qucumber.utils.training_statistics.KL": m["aliases"]}
+            ctx.point("alias.table", "aux", found, want, {"op": "alias-table"}, exact=True, sig="alias/table", theorem="C10_alias_rename_spec")
+    for (name, pos, kw) in case["forms"]:
+        sub = dict(case, forms=[[name, pos, kw]], introspect=False)
+        sig = f"alias/{case['fn']}/{name}"
+        ctx.count(f"alias.form={name}")
+        with warnings.catch_warnings(record=True) as wlist:
+            warnings.simplefilter("always")
+            out = call(lambda: fn(*[vals[t] for t in pos], **{k: vals[t] for k, t in kw}))
+        ctx.count("alias.warning emitted (informational)" if any("deprecated" in str(w.message) for w in wlist) else "alias.no warning (informational)")
+        if ctx.driver is None:
+            continue
+        m = ctx.driver.call("c10.alias_call", kl=is_kl, pos=[{"ref": ALIAS_REFS[t]} for t in pos], kw=[[k, {"ref": ALIAS_REFS[t]}] for k, t in kw])
+        if "error" in m:
+            if out[0] == "err":
+                ctx.count("alias: refused by implementation and model")
+            else:  # the property does not say which calls must be refused: auxiliary
+                ctx.point("alias.refused", "aux", "value", "refused", sub, exact=True, sig=sig + "/refused", theorem="C10_alias_rename_spec")
+            continue
+        if out[0] == "err":  # a code path the model accepts does not return a number
+            ctx.point("alias.accepted", "property", out[1], "value", sub, exact=True, sig=sig + "/accepted", theorem="C10_alias_same_value")
+            continue
+        tag = {v: k for k, v in ALIAS_REFS.items()}
+        b = {p: (None if v is None else vals[tag[v["ref"]]]) for p, v in m["bound"].items()}
+        assert b["nn_state"] is st
+        canon = call(lambda: fn(st, b["target"], space=b["space"], bases=b["bases"]) if is_kl else fn(st, b["target"], space=b["space"]))
+        ctx.count("alias: accepted by implementation and model" + ("" if not any(k in ("target_psi", "target_rho") for k, _ in kw) else " (deprecated name)"))
+        if canon[0] != "ok":
+            ctx.count("alias: canonical call refused (no verdict)")
+            continue
+        ctx.point("alias.value", "property", [out[1]], [canon[1]], sub, scale=max(1.0, abs(canon[1])), sig=sig + "/value", theorem="C10_alias_same_value")
+
 # ---------------------------------------------------------------- fidelity
 def fidelity_case(ctx, case, st=None, A=None):
     s = case["state"]
@@ -1033,6 +1154,14 @@ def _gen_cases(ctx, thorough):
                            "call": cform("evaluator", bases_as=rng.choice(CONTAINERS))}
                     yield {"op": "nll", "state": s, "samples": samples, "sample_bases": sbs, "perm": pm, "call": cform("evaluator", bases_as="nd2")}
                 yield {"op": "rejected", "state": s, "target": cjson(targets[0][1])}
+                # ---------- (extension round 2) the deprecated_kwarg alias layer: every deprecated name of both decorated functions, alone /
+                # with the new name / with the other deprecated name / positionally shadowed, against QV.CallForm.metricBind
+                if not ud:
+                    for fname in ("fidelity", "KL"):
+                        wb = kind != "pos" and fname == "KL"
+                        yield {"op": "alias", "state": s, "fn": fname, "targets": [cjson(targets[0][1]), cjson(targets[3][1])],
+                               "bases": (short if wb else None), "introspect": n == 1 and kind == "pos" and fname == "fidelity",
+                               "forms": [list(f) for f in alias_forms(rng, fname == "KL", wb, ["target_psi", "target_rho"])]}
                 # ---------- the same metrics (space=None) after an enumeration handed out earlier was modified in place by the caller
                 def prelude():
                     pre = {"how": rng.choice(PRELUDE_HOW), "seed": rng.randrange(1 << 30), "same_object": rng.random() < 0.5,
@@ -1190,7 +1319,7 @@ def dispatch(ctx, case):
             ctx.count("op=rejected-forms (counters only)")
             rejected_forms(ctx, st, s, cfrom(case["target"]))
             return
-        {"fidelity": fidelity_case, "kl": kl_case, "nll": nll_case}[case["op"]](ctx, case, st=st, A=A)
+        {"fidelity": fidelity_case, "kl": kl_case, "nll": nll_case, "alias": alias_case}[case["op"]](ctx, case, st=st, A=A)
     except SkipCase:
         ctx.count("case_skipped:constructed_state_unusable")
     finally:
